@@ -47,3 +47,101 @@ def check_C24(tier, seed):
 
 def threads_build_failure(err):
     return "Send" in err or "Sync" in err or "cannot be shared between threads" in err or "cannot be sent between threads" in err
+
+# ------------------------------------------------------------------ C26
+def naming_schemas(tier):
+    """(label, list of (type name, kind, implements, property names, edge (name, target)), entrypoints)"""
+    S = []
+    def sch(label, types, entries=("Things",)): S.append((label, types, list(entries)))
+    base = lambda n="Thing", props=("id", "name"), edges=None: (n, props, (("peer", n),) if edges is None else edges)   # every type has at least one edge: its resolver calls the as_<variant>() accessor
+    sch("plain", [base()])
+    sch("consecutive_capitals_type", [base("HTTPServer")], ["Servers"])
+    sch("two_capitals_type", [base("AB")])
+    sch("digit_in_type", [base("Http2Server"), base("A1B")])
+    sch("underscore_type", [base("Foo_Bar"), base("_Lead")])
+    sch("case_only_type_collision", [base("Foo_Bar"), base("FooBar")])
+    sch("case_only_field_collision", [base("Thing", props=("userName", "user_name"))])
+    sch("case_only_edge_property_collision", [base("Thing", props=("owner",), edges=(("Owner", "Thing"),))])
+    sch("keyword_fields", [base("Thing", props=("type", "fn", "self", "match", "async"), edges=(("impl", "Thing"), ("loop", "Thing")))])
+    sch("keyword_types", [base("type"), base("match"), base("Self")], ["things"])
+    sch("keyword_entrypoint", [base()], ["type", "fn", "Things"])
+    sch("type_and_type_underscore", [base("Type"), base("Type_")])
+    sch("entrypoints_case_collision", [base()], ["Foo", "foo"])
+    sch("consecutive_capitals_fields", [base("Thing", props=("userID", "HTTPCode"), edges=(("toHTTP", "Thing"),))])
+    sch("reserved_unescaped_field", [base("Thing", props=("abstract", "box", "yield", "macro"), edges=(("virtual", "Thing"), ("final", "Thing"), ("gen", "Thing")))])
+    sch("reserved_unescaped_type", [base("virtual")], ["Things"])
+    sch("lowercase_type", [base("thing"), base("other_thing")])
+    sch("vertex_named_vertex", [base("Vertex"), base("Adapter")])
+    sch("names_like_std", [base("Option"), base("Some"), base("Box"), base("Vec")])
+    if tier == "quick": S = [s for s in S if s[0] in ("plain", "consecutive_capitals_type", "case_only_type_collision", "keyword_fields", "entrypoints_case_collision", "digit_in_type", "type_and_type_underscore")]
+    return S
+
+def naming_sdl(types, entries):
+    from lib import DIRECTIVES
+    out = ["schema { query: RootQ }", DIRECTIVES, "type RootQ {"]
+    first = types[0][0]
+    for k, e in enumerate(entries): out.append(f"  {e}" + ("(limit: Int = 3)" if k == 0 else "") + f": [{first}!]")
+    out.append("}")
+    for n, props, edges in types:
+        out.append(f"type {n} {{")
+        for k, p in enumerate(props): out.append(f"  {p}: " + ["Int!", "String", "[Float!]", "Boolean", "[String]!"][k % 5])
+        for en, tgt in edges: out.append(f"  {en}(min: Int): [{tgt}!]")
+        out.append("}")
+    return "\n".join(out) + "\n"
+
+def check_C26(tier, seed):
+    res = Result("C26", tier, seed, "exploration")
+    wd = workdir("C26")
+    schemas = naming_schemas(tier)
+    scratch = f"/var/tmp/verif_stub_{os.getpid()}"
+    shutil.rmtree(scratch, ignore_errors=True); os.makedirs(scratch)
+    try:
+        jobs = [{"id": k + 1, "sdl": naming_sdl(t, e), "dir": os.path.join(scratch, f"s{k + 1}")} for k, (l, t, e) in enumerate(schemas)]
+        ip, op = os.path.join(wd, "in.ndjson"), os.path.join(wd, "out.ndjson")
+        write_ndjson(ip, jobs); vh(["map", "stubgen", ip, op]); gen = read_ndjson(op)
+        # the model's prediction
+        cases = [{"id": k + 1, "names": {"types": [{"name": list(n), "fields": [list(p) for p in props] + [list(en) for en, _ in edges], "edges": [list(en) for en, _ in edges]} for n, props, edges in t], "entries": [list(x) for x in e]}} for k, (l, t, e) in enumerate(schemas)]
+        p = os.path.join(wd, "judge.ndjson"); write_ndjson(p, cases)
+        r = tlc("JudgeStubgen", "JudgeStubgen.cfg", {"INST": p}, wd, workers=4, timeout=900)
+        res.add_tlc(r)
+        pred = {iid: (cls, json.loads(tla_unquote(rest))) for iid, cls, rest in parse_verdicts(r["out"])}
+        if len(pred) != len(cases): raise ToolError("JudgeStubgen: missing verdicts\n" + r["out"][-2000:])
+        shutil.copy("/repo/Cargo.lock", os.path.join(scratch, "Cargo.lock"))
+        ncompiled = 0
+        for job, g, (label, t, e) in zip(jobs, gen, schemas):
+            cls, detail = pred[job["id"]]
+            tags = {"predicted:" + cls} | {k for k, v in detail.items() if not v}
+            if g["t"] == "panic" or g["t"] == "err":
+                refusal = "cannot generate adapter for a schema containing both" in g["err"]
+                if refusal:
+                    if cls != "refused": res.drift.append(f"'{label}': the generator refused ({g['err'][:80]}) but Stubgen.tla predicts {cls}")
+                    res.sample({"schema": label, "outcome": "refused by the generator (name collision)", "model": cls}, cap=6); continue
+                res.violation(f"the stub generator failed on a valid schema ('{label}'): {g['err'][:200]}", text=g["err"], tags=tags, replay={"label": label, "sdl": job["sdl"]}); continue
+            d = job["dir"]
+            with open(os.path.join(d, "Cargo.toml"), "w") as f:
+                f.write('[package]\nname = "stubtest"\npublish = false\nversion = "0.1.0"\nedition = "2021"\n\n[dependencies]\ntrustfall = { path = "/repo/trustfall" }\n\n[workspace]\n')
+            os.makedirs(os.path.join(d, ".cargo"), exist_ok=True)
+            with open(os.path.join(d, ".cargo", "config.toml"), "w") as f: f.write(f'[net]\noffline = true\n[build]\ntarget-dir = "{scratch}/target"\n')
+            shutil.copy(os.path.join(scratch, "Cargo.lock"), os.path.join(d, "Cargo.lock"))
+            with open(os.path.join(d, "src", "lib.rs"), "w") as f: f.write("mod adapter;\n")
+            pr = subprocess.run(["cargo", "test", "--no-run", "--offline"], cwd=d, capture_output=True, text=True, env=dict(os.environ, CARGO_NET_OFFLINE="true"), timeout=1500)
+            ncompiled += 1
+            if pr.returncode != 0:
+                errs = re.findall(r"^error(?:\[E\d+\])?: .*$", pr.stderr, re.M)
+                if any("failed to select a version" in x or "no matching package" in x or "failed to load source" in x for x in errs + [pr.stderr[-400:]]) and not any("E0" in x for x in errs):
+                    raise ToolError("cargo could not resolve dependencies offline for the stub crate:\n" + pr.stderr[-1500:])
+                res.violation(f"the stub generated for valid schema '{label}' does not compile: {'; '.join(errs[:3])[:300]}", text="stub-compile " + " ".join(errs[:4]), tags=tags,
+                              replay={"label": label, "sdl": job["sdl"], "errors": errs[:10]})
+                if cls == "compiles": res.drift.append(f"'{label}': Stubgen.tla predicts a compiling stub")
+            else:
+                if cls != "compiles": res.drift.append(f"'{label}': compiles although Stubgen.tla predicts {cls} {detail}")
+                res.sample({"schema": label, "outcome": "generated and compiled (cargo test --no-run)", "model": cls}, cap=6)
+        res.cov["evaluations"] = len(schemas)
+        res.cov["distinct_nontrivial"] = ncompiled
+        res.cov["rule"] = ("naming-focused valid schemas (consecutive capitals, digits, underscores, names differing only by case or underscores, Rust keywords and reserved words as type / property / edge / entrypoint names, Type vs Type_, "
+                           "std-like names); each is given to the real generate_rust_stub; a refusal for a predicted identifier collision is accepted; every generated stub is compiled offline with `cargo test --no-run` against /repo/trustfall in a scratch "
+                           "crate outside /repo and /verif. Stubgen.tla predicts refusal / compile per case (mismatches are MODEL-DRIFT). distinct non-trivial = stubs compiled")
+        res.assumptions += ["'is valid Rust' is decided by rustc, not by the model"]
+    finally:
+        shutil.rmtree(scratch, ignore_errors=True)
+    return res
